@@ -318,6 +318,17 @@ func (tr *FnTrans) frameChecks() {
 	if tr.c == nil {
 		return
 	}
+	for _, sd := range tr.c.Sites {
+		var probs []string
+		for _, ms := range tr.missingSites {
+			if ms.Alias == sd.Alias {
+				probs = append(probs, fmt.Sprintf("no call matching %s#%d in %s", sd.Pattern, sd.K, tr.name))
+			}
+		}
+		if len(probs) > 0 {
+			tr.syntactic("site-exists["+sd.Alias+"]", "the call the contract refers to ("+sd.Pattern+"#"+fmt.Sprint(sd.K)+") exists", probs)
+		}
+	}
 	if tr.c.Pure || (tr.c.ModSet && len(tr.c.Modifies) == 0) {
 		if tr.c.FrameTrusted != "" {
 			tr.usedSpecs["frame condition of "+tr.name+" trusted, not checked: "+tr.c.FrameTrusted] = true
@@ -325,7 +336,9 @@ func (tr *FnTrans) frameChecks() {
 			tr.syntactic("frame:pure", "function declared pure / modifies nothing writes no caller-visible memory", tr.purityViolations())
 		}
 	}
-	if tr.c.ModSet && len(tr.c.Modifies) > 0 && !tr.c.Assumed {
+	if tr.c.ModSet && len(tr.c.Modifies) > 0 && !tr.c.Assumed && tr.c.FrameTrusted != "" {
+		tr.usedSpecs["frame condition of "+tr.name+" trusted, not checked: "+tr.c.FrameTrusted] = true
+	} else if tr.c.ModSet && len(tr.c.Modifies) > 0 && !tr.c.Assumed {
 		var allowed []string
 		for _, m := range tr.c.Modifies {
 			allowed = append(allowed, m.E.String())
